@@ -21,6 +21,9 @@ type adaptiveAdmissionController struct {
 	trendCfg config.TrendSignalsConfig
 	store    queue.Store
 	now      func() time.Time
+	// generation advances with every change of cfg/trendCfg/store, under mu, so
+	// that one decision can tell whether cached signals belong to its config.
+	generation uint64
 
 	stats struct {
 		mu         sync.Mutex
@@ -38,7 +41,7 @@ type adaptiveAdmissionController struct {
 		cachedAt   time.Time
 		cachedOK   bool
 		refreshing bool
-		// generation changes whenever the store or the trend config changes; a refresh
+		// generation is the controller generation the cache belongs to; a refresh
 		// that started under an earlier generation must not publish its result.
 		generation uint64
 	}
@@ -61,6 +64,8 @@ func (c *adaptiveAdmissionController) setStore(store queue.Store) {
 	}
 	c.mu.Lock()
 	c.store = store
+	c.generation++
+	generation := c.generation
 	c.mu.Unlock()
 
 	c.stats.mu.Lock()
@@ -75,7 +80,7 @@ func (c *adaptiveAdmissionController) setStore(store queue.Store) {
 	c.trend.cachedAt = time.Time{}
 	c.trend.cachedOK = false
 	c.trend.refreshing = false
-	c.trend.generation++
+	c.trend.generation = generation
 	c.trend.mu.Unlock()
 }
 
@@ -86,6 +91,8 @@ func (c *adaptiveAdmissionController) updateConfig(cfg config.AdaptiveBackpressu
 	c.mu.Lock()
 	c.cfg = cfg
 	c.trendCfg = trendCfg
+	c.generation++
+	generation := c.generation
 	c.mu.Unlock()
 
 	// Trend interpretation depends on trend config; force quick recompute.
@@ -94,7 +101,7 @@ func (c *adaptiveAdmissionController) updateConfig(cfg config.AdaptiveBackpressu
 	c.trend.cachedAt = time.Time{}
 	c.trend.cachedOK = false
 	c.trend.refreshing = false
-	c.trend.generation++
+	c.trend.generation = generation
 	c.trend.mu.Unlock()
 }
 
@@ -103,7 +110,11 @@ func (c *adaptiveAdmissionController) evaluate() (apply bool, reason string) {
 		return false, ""
 	}
 
-	cfg, _, _ := c.snapshot()
+	// One snapshot for the whole decision: a reload in between must not mix
+	// the old admission settings with the new trend thresholds (or vice versa).
+	c.mu.RLock()
+	cfg, trendCfg, store, generation := c.cfg, c.trendCfg, c.store, c.generation
+	c.mu.RUnlock()
 	if !cfg.Enabled {
 		return false, ""
 	}
@@ -128,7 +139,7 @@ func (c *adaptiveAdmissionController) evaluate() (apply bool, reason string) {
 	if cfg.OldestQueuedAge > 0 && stats.OldestQueuedAge >= cfg.OldestQueuedAge {
 		return true, "oldest_queued_age"
 	}
-	if cfg.SustainedGrowth && c.sustainedGrowthActive() {
+	if cfg.SustainedGrowth && c.sustainedGrowthActive(trendCfg, store, generation) {
 		return true, "sustained_growth"
 	}
 	return false, ""
@@ -238,19 +249,18 @@ func (c *adaptiveAdmissionController) refreshStatsAsync(store queue.Store) {
 	c.stats.cachedOK = true
 }
 
-func (c *adaptiveAdmissionController) sustainedGrowthActive() bool {
-	signals, ok := c.trendSnapshot()
+func (c *adaptiveAdmissionController) sustainedGrowthActive(trendCfg config.TrendSignalsConfig, store queue.Store, generation uint64) bool {
+	signals, ok := c.trendSnapshot(trendCfg, store, generation)
 	if !ok {
 		return false
 	}
 	return signals.SustainedGrowth
 }
 
-func (c *adaptiveAdmissionController) trendSnapshot() (queue.BacklogTrendSignals, bool) {
+func (c *adaptiveAdmissionController) trendSnapshot(trendCfg config.TrendSignalsConfig, store queue.Store, generation uint64) (queue.BacklogTrendSignals, bool) {
 	if c == nil {
 		return queue.BacklogTrendSignals{}, false
 	}
-	_, trendCfg, store := c.snapshot()
 	trendStore, ok := store.(queue.BacklogTrendStore)
 	if !ok || trendStore == nil {
 		return queue.BacklogTrendSignals{}, false
@@ -258,6 +268,13 @@ func (c *adaptiveAdmissionController) trendSnapshot() (queue.BacklogTrendSignals
 
 	now := c.nowUTC()
 	c.trend.mu.Lock()
+	if c.trend.generation != generation {
+		// The cache belongs to another config than this decision (a reload
+		// happened meanwhile): compute for this decision only.
+		c.trend.mu.Unlock()
+		signals, err := computeTrendSignals(trendStore, trendCfg, now)
+		return signals, err == nil
+	}
 	if c.trend.cachedOK && (c.trend.ttl <= 0 || now.Sub(c.trend.cachedAt) <= c.trend.ttl) {
 		signals := c.trend.cached
 		c.trend.mu.Unlock()
@@ -270,14 +287,13 @@ func (c *adaptiveAdmissionController) trendSnapshot() (queue.BacklogTrendSignals
 			return queue.BacklogTrendSignals{}, false
 		}
 		c.trend.refreshing = true
-		generation := c.trend.generation
 		c.trend.mu.Unlock()
 		return c.refreshTrendSync(trendStore, trendCfg, now, generation)
 	}
 
 	if !c.trend.refreshing {
 		c.trend.refreshing = true
-		go c.refreshTrendAsync(trendStore, trendCfg, now, c.trend.generation)
+		go c.refreshTrendAsync(trendStore, trendCfg, now, generation)
 	}
 	signals := c.trend.cached
 	c.trend.mu.Unlock()
